@@ -21,8 +21,11 @@ import traceback
 VERIF = os.path.dirname(os.path.dirname(os.path.abspath(__file__)))
 COQ = os.path.join(VERIF, "coq")
 REPO = os.environ.get("YAQL_REPO", "/repo")
-EVID = os.path.join(VERIF, "evidence")
-REPLAYS = os.path.join(VERIF, "replays")
+# evidence and replays of runs against a scratch copy (seeded-change experiments) never overwrite the
+# records of /repo itself
+_OWN = os.path.realpath(REPO) == "/repo"
+EVID = os.path.join(VERIF, "evidence") if _OWN else "/var/tmp/verif_other_repo/evidence"
+REPLAYS = os.path.join(VERIF, "replays") if _OWN else "/var/tmp/verif_other_repo/replays"
 LOGICAL = "YV"
 
 FORBIDDEN = [
